@@ -57,6 +57,9 @@ type H struct {
 	bySig    map[string]*Violation
 	sampleN  int64
 	Thorough bool
+	// Quiet suppresses the coverage counters (used when several shards must
+	// re-run the same cheap cases and only one may count them).
+	Quiet bool
 }
 
 var (
@@ -92,6 +95,9 @@ func (h *H) Mine(idx int) bool {
 
 // Eval counts one evaluated case.
 func (h *H) Eval(nontrivial bool) {
+	if h.Quiet {
+		return
+	}
 	h.mu.Lock()
 	h.R.Evaluations++
 	if nontrivial {
@@ -102,6 +108,9 @@ func (h *H) Eval(nontrivial bool) {
 
 // EvalN counts n evaluated cases of which nt are non-trivial.
 func (h *H) EvalN(n, nt int64) {
+	if h.Quiet {
+		return
+	}
 	h.mu.Lock()
 	h.R.Evaluations += n
 	h.R.Nontrivial += nt
@@ -110,6 +119,9 @@ func (h *H) EvalN(n, nt int64) {
 
 // Section counts cases per named part of the enumeration.
 func (h *H) Section(name string, n int64) {
+	if h.Quiet {
+		return
+	}
 	h.mu.Lock()
 	h.R.Sections[name] += n
 	h.mu.Unlock()
@@ -125,6 +137,9 @@ func (h *H) AddTraces(n int64)      { h.mu.Lock(); h.R.Traces += n; h.mu.Unlock(
 
 // Outcome counts an observed outcome class.
 func (h *H) Outcome(class string) {
+	if h.Quiet {
+		return
+	}
 	h.mu.Lock()
 	h.R.Outcomes[class]++
 	h.mu.Unlock()
@@ -132,6 +147,9 @@ func (h *H) Outcome(class string) {
 
 // Sample keeps a handful of cases, spread over the run (1st, 10th, 100th, ...).
 func (h *H) Sample(mk func() interface{}) {
+	if h.Quiet {
+		return
+	}
 	h.mu.Lock()
 	h.sampleN++
 	n := h.sampleN
